@@ -385,6 +385,12 @@ def plan(tier):
                        S.shape_strategy(odd).map(lambda t: {"sub": "ack", "kind": "notification_unknown", "tree": S.tree_to_json(t)}), 4 * n))
     call = E.by_name("CallProtocolEntity")
     strategies.append(("call", S.shape_strategy(call.shape).map(lambda t: {"sub": "ack", "kind": "call", "tree": S.tree_to_json(t)}), 4 * n))
+    # a call stanza may carry children the library has no name for, before or behind the one that says what it is about
+    call_kinds = S.WORD("offer", "offer", "transport", "relaylatency", "reject", "terminate")
+    other = S.N(S.WORD("group_info", "enc", "net", "x"), {"k": S.OPT(S.TEXT)})
+    call_more = S.N("call", {"from": S.JID, "id": S.ID, "t": S.TS, "offline": S.WORD("0", "1"), "notify": S.OPT(S.TEXT), "retry": S.OPT(S.COUNT), "e": S.OPT(S.NUM)},
+                    children=[S.CH(other, 0, 2), S.CH(S.N(call_kinds, {"call-id": S.ID}), 1, 1), S.CH(other, 0, 1)])
+    strategies.append(("call_with_unnamed_siblings", S.shape_strategy(call_more).map(lambda t: {"sub": "ack", "kind": "call", "tree": S.tree_to_json(t)}), 4 * n))
     ping = S.N("iq", {"id": S.ID, "type": S.CONST("get"), "from": S.CONST(SERVER), "xmlns": S.CONST("urn:xmpp:ping")})
     strategies.append(("ping", S.shape_strategy(ping).map(lambda t: {"sub": "ack", "kind": "ping", "tree": S.tree_to_json(t)}), 2 * n))
     for how in ("app_ping", "key_upload"):
@@ -429,3 +435,4 @@ def plan(tier):
 
 RULE += (' Also: unpresentable content under other stanza types (reaction, poll, pay, newsletter, none); unknown-type notifications carrying blobs of up to 3000 bytes; unpresentable content arriving encrypted (own process, real sessions: direct / group, first contact / after a conversation).')
 RULE += (" Every notification, call and unpresentable-message stimulus is also delivered a second time (new id, same sender) before anything the first one made the client ask the server has been answered; each is acknowledged on its own.")
+RULE += (" Call stanzas also with children of unknown kinds before / behind the child that names the call.")
